@@ -2,6 +2,7 @@ package rules
 
 import (
 	"go/ast"
+	"go/token"
 	"go/types"
 	"strings"
 
@@ -28,7 +29,7 @@ func init() {
 		"(a) a shared table's cleanup deletes the file only when the ownership query returned no error and answered 'exclusively owned'; (b) the file-deleting primitives (os.Remove, S3 DeleteObject, File.Delete, delete funcs, StorageLocation.Remove) are reachable only from the table cleanups, from Checkpoint.Destroy via CheckpointList.Save, and from the obsolete-snapshot removal; (c) WAL files of dropped checkpoints are destroyed only after the new checkpoints file was written and saved; (d) every checkpoint object records the table URIs it references, so NeedsTable answers truthfully for live checkpoints; (e) every table cleanup consults an ownership / retention predicate before deleting; (f) RetainOnly moves exactly the non-retained checkpoints to the pending-removal list, refuses to retain nothing, and IncludesTable consults every retained checkpoint; plus C08.f (captured level lists are immutable) and C13.b.",
 		"garbage-collection timing and RPC failure patterns themselves (the rules make the outcome independent of them); data races on CheckpointList (it has no lock of its own; noted in DESIGN.md, not armed).")
 
-	register(&Obligation{ID: "C09.a", Props: []string{"C09", "C06"}, Template: "guard",
+	register(&Obligation{ID: "C09.a", Props: []string{"C09", "C06", "C01"}, Template: "guard",
 		Desc: "sst.NewTableFromDocument's cleanup calls the delete func only on a path where ExclusivelyOwnsTable returned a nil error and true ('errors must mean keep')",
 		Run: func(r *Run) {
 			f := r.P.Func("dkv/sst", "NewTableFromDocument")
@@ -199,7 +200,7 @@ func init() {
 			}
 		}})
 
-	register(&Obligation{ID: "C09.d", Props: []string{"C09", "C06"}, Template: "init-completeness",
+	register(&Obligation{ID: "C09.d", Props: []string{"C09", "C06", "C01"}, Template: "init-completeness",
 		Desc: "every recovery.Checkpoint value is built with the set of table URIs it references (tableURIset), which IncludesTable / NeedsTable read",
 		Run: func(r *Run) {
 			ckT := r.P.TypeName("dkv/recovery", "Checkpoint")
@@ -279,6 +280,155 @@ func init() {
 						r.Fail("table-cleanup:"+where+":unconditional-delete", cs.Use.Ident.Pos(), nil, "%s registers a cleanup that deletes the table file when the object is garbage collected without consulting any ownership / retention predicate (DBOptions.CanDeleteTable is never read): after a redeploy in the same process the old DB's tables are collected while the restored DB uses the same files", where)
 					}
 				}
+			}
+		}})
+
+	register(&Obligation{ID: "C09.g", Props: []string{"C09", "C06", "C01"}, Template: "error-accumulation",
+		Desc: "OperatorPartition.ExclusivelyOwnsTable answers 'exclusively owned' with a nil error only if every neighbour was asked, answered without error and none needs the table: one result is consumed per neighbour, an error once seen is never overwritten by a later nil, the flag is set for every needsTable=true, and the function returns (!neighbourNeedsTable, accumulated error)",
+		Run: func(r *Run) {
+			f := r.P.Func("workers/operator", "(*OperatorPartition).ExclusivelyOwnsTable")
+			info := f.Pkg.TypesInfo
+			neighbors := r.P.Field("workers/operator", "OperatorPartition", "neighbors")
+			needs := r.P.FuncObj("workers/operator", "(*neighborPartition).NeedsTable")
+			// spawn loop and result loop both range over o.neighbors
+			var loops []*ast.RangeStmt
+			ast.Inspect(f.Decl.Body, func(nd ast.Node) bool {
+				if rs, ok := nd.(*ast.RangeStmt); ok && prog.SelField(info, rs.X) == neighbors {
+					loops = append(loops, rs)
+				}
+				return true
+			})
+			if len(loops) != 2 {
+				r.Error("undecided: ExclusivelyOwnsTable: expected an ask loop and a result loop over o.neighbors, found %d", len(loops))
+				return
+			}
+			ask, collect := loops[0], loops[1]
+			r.Site(ask.Pos(), "ExclusivelyOwnsTable: every neighbour is asked")
+			if !r.exprCalls(info, ask.Body, needs) {
+				r.Fail(f.Name()+":ask", ask.Pos(), nil, "not every neighbour is asked whether it needs the table")
+			}
+			for _, st := range ask.Body.List {
+				if b, ok := st.(*ast.BranchStmt); ok {
+					r.Fail(f.Name()+":ask-skips", b.Pos(), nil, "a neighbour can be skipped (%s) without being asked", b.Tok)
+				}
+			}
+			// result loop
+			r.Site(collect.Pos(), "ExclusivelyOwnsTable: result loop")
+			var resVar, errAcc, flag types.Object
+			ast.Inspect(collect.Body, func(nd ast.Node) bool {
+				if as, ok := nd.(*ast.AssignStmt); ok && len(as.Lhs) == 1 && len(as.Rhs) == 1 {
+					if u, ok := ast.Unparen(as.Rhs[0]).(*ast.UnaryExpr); ok && u.Op == token.ARROW && as.Tok == token.DEFINE {
+						resVar = prog.IdentObj(info, as.Lhs[0])
+					}
+				}
+				return true
+			})
+			// return statement at the end: (!flag, errAcc)
+			last, ok := f.Decl.Body.List[len(f.Decl.Body.List)-1].(*ast.ReturnStmt)
+			if !ok || len(last.Results) != 2 || resVar == nil {
+				r.Error("undecided: ExclusivelyOwnsTable shape")
+				return
+			}
+			if u, ok := ast.Unparen(last.Results[0]).(*ast.UnaryExpr); ok && u.Op == token.NOT {
+				flag = prog.IdentObj(info, u.X)
+			}
+			errAcc = prog.IdentObj(info, last.Results[1])
+			if flag == nil || errAcc == nil || !isErrorType(errAcc.Type()) {
+				r.Fail(f.Name()+":return-shape", last.Pos(), nil, "ExclusivelyOwnsTable must return (!neighbourNeedsTable, accumulated error)")
+				return
+			}
+			isResField := func(c *pathsim.Ctx, e ast.Expr, name string) bool {
+				sel, ok := ast.Unparen(e).(*ast.SelectorExpr)
+				return ok && sel.Sel.Name == name && prog.IdentObj(c.Info, sel.X) == resVar
+			}
+			atoms := []guardAtom{
+				{Name: "result.needsTable", Match: func(c *pathsim.Ctx, e ast.Expr) (bool, bool) { return false, isResField(c, e, "needsTable") }},
+				{Name: "result.err!=nil", Match: func(c *pathsim.Ctx, e ast.Expr) (bool, bool) {
+					x, notNil, ok := pathsim.IsNilCompare(c.Info, e)
+					if ok && isResField(c, x, "err") {
+						return !notNil, true
+					}
+					return false, false
+				}},
+			}
+			spec := &pathsim.Spec{}
+			spec.Atom = func(c *pathsim.Ctx, e ast.Expr) (int, bool, bool) {
+				for i, a := range atoms {
+					if neg, ok := a.Match(c, e); ok {
+						return i, neg, true
+					}
+				}
+				return 0, false, false
+			}
+			spec.Step = func(c *pathsim.Ctx, s pathsim.State, ev *pathsim.Event) []pathsim.State {
+				if ev.Kind == pathsim.EvRangeIter && ev.Node == ast.Node(collect) {
+					if s.A == 1 {
+						c.Violate(ev.Pos, "[needs-not-recorded] an iteration with result.needsTable established true ends without recording it")
+					}
+					s.A = 0
+					s.V[0], s.V[1] = pathsim.Unknown, pathsim.Unknown
+					return []pathsim.State{s}
+				}
+				if ev.Kind == pathsim.EvAssign && len(ev.Lhs) == 1 && len(ev.Rhs) == 1 {
+					lhs := prog.IdentObj(c.Info, ev.Lhs[0])
+					if lhs == errAcc && ev.Node.Pos() > collect.Pos() && ev.Node.End() <= collect.End() {
+						keeps := false
+						ast.Inspect(ev.Rhs[0], func(m ast.Node) bool {
+							if id, ok := m.(*ast.Ident); ok && c.Info.Uses[id] == errAcc {
+								keeps = true
+							}
+							return true
+						})
+						if !keeps && s.V[1] != pathsim.True {
+							c.Violate(ev.Pos, "[error-overwritten] the accumulated error is overwritten by a result whose error was not established non-nil: a neighbour's failure is forgotten when a later neighbour answers, the function returns (true, nil) and the shared table is deleted although the failed neighbour may need it")
+						}
+					}
+					if lhs == flag {
+						if tv, ok := c.Info.Types[ev.Rhs[0]]; ok && tv.Value != nil && tv.Value.String() == "true" {
+							s.A = 2
+							return []pathsim.State{s}
+						}
+						if ev.Node.Pos() > collect.Pos() {
+							c.Violate(ev.Pos, "[flag-reset] the 'a neighbour needs the table' flag is assigned something other than true inside the result loop")
+						}
+					}
+				}
+				return nil
+			}
+			// mark iterations where needsTable is true but flag not set: use A=1 when V[0]==True observed at loop end
+			inner := spec.Step
+			spec.Step = func(c *pathsim.Ctx, s pathsim.State, ev *pathsim.Event) []pathsim.State {
+				if (ev.Kind == pathsim.EvRangeIter || ev.Kind == pathsim.EvLoopExit) && ev.Node == ast.Node(collect) && s.V[0] == pathsim.True && s.A != 2 {
+					c.Violate(collect.Pos(), "[needs-not-recorded] a result with needsTable=true does not set the flag: the table would be judged exclusively owned although a neighbour needs it")
+				}
+				return inner(c, s, ev)
+			}
+			r.Sim(f.Decl, f.Name(), spec)
+			// one receive per neighbour
+			recvs := 0
+			ast.Inspect(collect.Body, func(nd ast.Node) bool {
+				if u, ok := nd.(*ast.UnaryExpr); ok && u.Op == token.ARROW {
+					recvs++
+				}
+				return true
+			})
+			if recvs != 1 {
+				r.Fail(f.Name()+":one-result-per-neighbour", collect.Pos(), nil, "the result loop must consume exactly one result per neighbour (found %d receives per iteration)", recvs)
+			}
+			// the shortcut: own range contains the table's range
+			contains := r.P.FuncObj("partitioning", "KeyGroupRange.Contains")
+			okShort := false
+			ast.Inspect(f.Decl.Body, func(nd ast.Node) bool {
+				if is, ok := nd.(*ast.IfStmt); ok && r.exprCalls(info, is.Cond, contains) {
+					if _, isNot := ast.Unparen(is.Cond).(*ast.UnaryExpr); !isNot {
+						okShort = true
+					}
+				}
+				return true
+			})
+			r.Site(f.Decl.Pos(), "shortcut only when the own range contains the table's range")
+			if !okShort {
+				r.Note("no containment shortcut")
 			}
 		}})
 
